@@ -23,6 +23,9 @@ class Note:
         return f"Note({self.v})"
 
 
+FALSY = (0, False, (), 0.0)      # user notes that are falsy are kept like any other note (R13-S16); None is the library's "no note" and reads back as ""
+
+
 def objects(platform):
     """(label, factory) for every exported class; factories build fresh objects each time"""
     import cisco_acl
@@ -36,6 +39,7 @@ def objects(platform):
     def ace():
         a = sc.make_ace(f"10 permit tcp {host} eq 80 {g} G1 eq 443 ack log", platform, note=Note(1))
         a.srcaddr.note = Note("src")
+        a.srcport.note, a.dstport.note, a.protocol.note, a.option.note = 0, False, (), 0.0     # a note is any user object, falsy ones included
         return a
 
     def acl(group=False, groups=True, leading=False):
@@ -47,7 +51,7 @@ def objects(platform):
                 o.note = Note(i)
                 if isinstance(o, cisco_acl.Ace):
                     for f_ in ("protocol", "srcaddr", "srcport", "dstaddr", "dstport", "option"):
-                        getattr(o, f_).note = Note((i, f_))
+                        getattr(o, f_).note = Note((i, f_)) if i % 2 else FALSY[(i // 2 + len(f_)) % len(FALSY)]
                     for addr in (o.srcaddr, o.dstaddr):
                         if addr.addrgroup:
                             addr.items = [cisco_acl.Address(m, platform=platform) for m in sc.GROUPS[platform][addr.addrgroup]]
